@@ -36,6 +36,9 @@ CLAIMED = {
     "C15": dict(level="exploration", ref="4/C15", technique="TLA+ trace validation (SolveTrace!LimitsProblems: allowed returns of Call(model, gap, limit), exact optimum by enumeration) of solve_milp_lp_problem_with / builder Microlp under sampled time limits and gaps",
                 text="The set of allowed returns of a call with a gap and a time limit is stated in TLA+ (internal search steps and the timer are existentially quantified); every observed return of the real solver on TLC-generated knapsack and small MILP models must be allowed. Wall-clock firing points are sampled (limits from 0 to 5 ms), not enumerated.",
                 note="timing-dependent paths are sampled; the exact optimum comes from 2^n enumeration inside TLC"),
+    "C09": dict(level="model_checking", ref="4/C09", technique="TLA+ reference precedence-climbing parser (Pratt.tla) as trace specification of the real parser on TLC-enumerated token strings (TokGen.tla)",
+                text="TLC enumerates all well-formed token strings up to 5 tokens and all operator triples with prefix choices (plus simulated strings up to 12 tokens); the real front end parses each rendered text (keyword, symbolic-alias and keyword-prefixed-identifier spellings) and the compiled tree must have the value Pratt!Parse gives at every assignment over {0,1,2,3,5,7}.",
+                note="value equality on a finite assignment grid; rendering of tokens to text is done by the driver"),
 }
 NOT_YET = {}
 ALL = [f"C{i:02d}" for i in range(1, 21)]
